@@ -443,7 +443,9 @@ pub fn check(c: &KaCase, st: &mut Stats) -> Result<(), Viol> {
     // a client the keep-alive has disconnected is gone for everybody: a fresh connection does not
     // find its nick any more, and finds every client that is still connected
     let gone: Vec<String> = clients.iter().filter(|c| c.eof_ms.is_some()).map(|c| c.nick.clone()).collect();
-    let alive: Vec<String> = clients.iter().filter(|c| c.eof_ms.is_none()).map(|c| c.nick.clone()).collect();
+    // (only clients that have answered everything must still be there: one that has fallen silent
+    // may be dropped at any moment, also between the last sample and the probe)
+    let alive: Vec<String> = clients.iter().filter(|c| c.eof_ms.is_none() && c.first_unanswered.is_none() && c.due_pongs.is_empty()).map(|c| c.nick.clone()).collect();
     if !gone.is_empty() {
         let pc = w.connect();
         w.send_line(pc, "NICK kprobe");
